@@ -16,6 +16,7 @@ import IrVerif.Lemmas.SemDedup
 import IrVerif.Lemmas.SemOutputFix
 import IrVerif.Lemmas.SemLsi
 import IrVerif.Lemmas.SemPerm
+import IrVerif.Lemmas.InlineTop
 namespace IrVerif.Passes
 open IrVerif.Sem
 variable {Val : Type}
@@ -544,3 +545,284 @@ example : chainOK [.outputFix, .identity, .dce]
   decide
 
 end IrVerif.Passes
+
+/-! ## model-local functions: InlinePass, RemoveUnusedFunctionsPass, RemoveUnusedOpsetsPass
+
+The IR of Model/Inline.lean: nodes may call model-local functions; a call denotes the body of the function
+under the call's inputs and attribute bindings (`evalGF`, `funcDen`), unrolled to a depth (`denoteAt d`);
+`denoteF` = depth `number of functions`. -/
+namespace IrVerif.Inline
+open IrVerif.Sem IrVerif.Passes
+
+theorem lvl_zero_eq (fs : List Func) : lvl fs 0 = fun op => (findFunc fs op).isNone := by
+  funext op; simp [lvl]
+
+/-- **C05_call_depth** — for a valid model (non-recursive call graph) the unrolling depth is irrelevant from
+    the number of functions on: every deeper unrolling denotes the same function. -/
+theorem C05_call_depth (m : FModel) (hv : validF m = true) {Val : Type} (I : Interp Val) (d : Nat)
+    (hd : m.funcs.length ≤ d) (xs : List Val) : denoteAt d I m xs = denoteF I m xs := by
+  simp only [validF, Bool.and_eq_true, List.all_eq_true] at hv
+  obtain ⟨⟨⟨⟨⟨_, _⟩, hl⟩, _⟩, _⟩, _⟩ := hv
+  simp only [denoteF, denoteAt]
+  have hall : ∀ (g : FGraph), opsAllG (lvl m.funcs m.funcs.length) g = true := by
+    intro g
+    refine opsAllG_mono (p := fun _ => true) (fun op _ => ?_) g ?_
+    · cases hf : findFunc m.funcs op with
+      | none => exact lvl_mono_le m.funcs (Nat.zero_le _) op (by simp [lvl, hf])
+      | some f => obtain ⟨hm, hid⟩ := findFunc_some hf; exact hid ▸ hl f hm
+    · exact opsAllG_true g
+  exact congrFun (evalGF_congrΦ I _ _ (lvl m.funcs m.funcs.length)
+    (fun op hop => fenv_stable I m.funcs _ op hop d hd) [] m.graph Env.empty (hall m.graph)) xs
+
+/-- **C05_inline_partial** — InlinePass (any `criteria`) on models whose function bodies contain no calls to
+    model-local functions (`flatFuncs`: single-level calls).  Covered: any number of calls, in the main
+    graph and in subgraphs at any depth; attribute parameters with and without defaults, reference
+    attributes (resolved, kept as references to outer parameters, or dropped); calls that supply fewer inputs
+    than the function has; control-flow subgraphs with captured
+    values inside function bodies (cloned with fresh inputs and initializers); outputs of the call rewired in
+    later nodes, in subgraphs and in the graph outputs; deletion of the inlined functions.
+    For every operator interpretation, every unrolling depth `d ≥ 1` and every input the inlined model
+    denotes the same outputs; the main graph keeps its inputs, initializers and number of outputs.
+
+    Excluded by `validF` (`callOK`): function outputs that are function inputs (D300: the repaired pass forwards
+    them through an Identity node; oracle only), stochastic operators in function bodies.
+    FULL STATEMENT (not proved): the same without `hflat`, i.e. for functions calling functions to any depth
+    (`validF` already requires a non-recursive call graph).  The model covers that case (the nodes cloned for
+    a call are processed by `inlAt`), `inlNodes_sound` is proved for any processing of the cloned nodes that
+    satisfies `DeepId`; MISSING is the proof that the clone of a valid function body is again SSA /
+    topologically ordered with ids in the fresh interval, which the induction over the unrolling budget needs
+    in order to process cloned call nodes.  Nested calls are covered by the correspondence and the evaluation
+    oracle only.
+    That no call to a deleted function remains and that the unrolling budget suffices is evaluated by the
+    model on its own result (`inlineModel` falls back to the unchanged model otherwise; the driver reports the
+    fallback and the check fails on it), not proved. -/
+theorem C05_inline_partial (crit : OpId → Bool) (m : FModel) (hv : validF m = true) (hflat : flatFuncs m = true) :
+    (∀ (Val : Type) (I : Interp Val) (d : Nat), 1 ≤ d → ∀ xs : List Val,
+      denoteAt d I (inlineModel crit m) xs = denoteAt d I m xs) ∧
+    (inlineModel crit m).graph.outputs.length = m.graph.outputs.length ∧
+    (inlineModel crit m).graph.inputs = m.graph.inputs ∧ (inlineModel crit m).graph.inits = m.graph.inits := by
+  have hv' := hv
+  simp only [validF, Bool.and_eq_true, List.all_eq_true, decide_eq_true_eq] at hv'
+  obtain ⟨⟨⟨⟨⟨hvm, hnd⟩, _⟩, hcg⟩, _⟩, hfb⟩ := hv'
+  have hflat' : FlatTbl m.funcs := by
+    intro f hf
+    simp only [flatFuncs, List.all_eq_true] at hflat
+    exact hflat f hf
+  simp only [validModel, eraseModel, Bool.and_eq_true, List.all_eq_true, List.mem_map, forall_exists_index,
+    and_imp, forall_apply_eq_imp_iff₂] at hvm
+  obtain ⟨hvg, hvfs⟩ := hvm
+  rw [validG_iff] at hvg
+  have hrun : (inlineRun crit m).model =
+      ⟨(inlG m.funcs crit (inlAt m.funcs crit m.funcs.length) ⟨freshF m, [], 0, false⟩ [] m.graph).2,
+        m.funcs.filter (fun f => !(inlG m.funcs crit (inlAt m.funcs crit m.funcs.length)
+          ⟨freshF m, [], 0, false⟩ [] m.graph).1.inlined.contains f.id), m.domains⟩ ∧
+      (inlineRun crit m).st = (inlG m.funcs crit (inlAt m.funcs crit m.funcs.length) ⟨freshF m, [], 0, false⟩ [] m.graph).1 := by
+    refine ⟨?_, ?_⟩ <;> simp only [inlineRun, inlFuncs_flat crit _ m.funcs hnd hflat']
+  have hbound : ∀ v, (v ∈ refsG (eraseG m.graph) ∨ v ∈ defsG (eraseG m.graph)) → v < freshF m := by
+    intro v hv
+    refine lt_freshId_of_mem (eraseModel m) ?_
+    simp only [eraseModel, List.mem_append]
+    rcases hv with h | h
+    · exact Or.inl (Or.inl (Or.inl h))
+    · exact Or.inl (Or.inl (Or.inr h))
+  have hsound : ∀ (Val : Type) (I : Interp Val) (d : Nat), 1 ≤ d →
+      evalGF I (fenv I m.funcs d) [] m.graph Env.empty =
+        evalGF I (fenv I m.funcs d) [] (inlG m.funcs crit (inlAt m.funcs crit m.funcs.length)
+          ⟨freshF m, [], 0, false⟩ [] m.graph).2 Env.empty := by
+    intro Val I d hd
+    have hl1 : ∀ f ∈ m.funcs, lvl m.funcs 1 f.id = true := by
+      intro f hf
+      rw [lvl]
+      split
+      · rfl
+      · rename_i f' hf'
+        rw [lvl_zero_eq]
+        exact hflat' f' (findFunc_some hf').1
+    have ht : TblOK I (fenv I m.funcs d) m.funcs :=
+      ⟨fun op f hf => fenv_unfold I m.funcs 1 hl1 hd hf,
+        fun op f hf => by
+          exact (hfb f (findFunc_some hf).1).1,
+        fun op f hf => by
+          exact (hfb f (findFunc_some hf).1).2,
+        fun op f hf => ((validG_iff _).1 (hvfs f (findFunc_some hf).1)).2.1⟩
+    exact (inlG_sound I (fenv I m.funcs d) [] m.funcs crit _ (freshF m) ht (deepId_inlAt m.funcs crit hflat' _)
+      m.graph [] ⟨freshF m, [], 0, false⟩ Env.empty Env.empty (fun v _ => by rw [Subst.app_nil])
+      (fun p hp => by simp at hp) hvg.1 hvg.2.1 hvg.2.2.1 (fun v hv => hbound v (Or.inl hv))
+      (fun v hv => hbound v (Or.inr hv)) (Nat.le_refl _) (fun p hp => by simp at hp) hcg).1
+  by_cases hfall : ((inlineRun crit m).st.stuck || !noDangling m.funcs (inlineRun crit m)) = true
+  · have hm : inlineModel crit m = m := by unfold inlineModel; rw [if_pos hfall]
+    rw [hm]
+    exact ⟨fun _ _ _ _ _ => rfl, rfl, rfl, rfl⟩
+  · have hm : inlineModel crit m = (inlineRun crit m).model := by unfold inlineModel; rw [if_neg hfall]
+    have hnd' : noDangling m.funcs (inlineRun crit m) = true := by
+      cases h : noDangling m.funcs (inlineRun crit m)
+      · simp [h] at hfall
+      · rfl
+    simp only [noDangling, Bool.and_eq_true] at hnd'
+    rw [hrun.2] at hnd'
+    rw [hrun.1] at hnd'
+    rw [hm, hrun.1]
+    refine ⟨fun Val I d hd xs => ?_, ?_, ?_, ?_⟩
+    · simp only [denoteAt]
+      rw [hsound Val I d hd]
+      refine congrFun (evalGF_congrΦ I _ _ _ (fun op hop => ?_) [] _ Env.empty hnd'.1) xs
+      refine fenv_filter I m.funcs hflat' (fun op => !(inlG m.funcs crit (inlAt m.funcs crit m.funcs.length)
+        ⟨freshF m, [], 0, false⟩ [] m.graph).1.inlined.contains op) d op ?_
+      simp only [Bool.or_eq_true, Option.isNone_iff_eq_none] at hop
+      rcases hop with h | h
+      · exact Or.inr h
+      · exact Or.inl h
+    · cases hg : m.graph with
+      | mk inputs outputs inits nodes =>
+        rw [hg] at hvg hbound
+        simp only [inlG, FGraph.outputs]
+        simp only [eraseG, ssaG, Bool.and_eq_true] at hvg
+        have hI : Interp Unit := ⟨fun _ _ _ _ _ => [], fun _ => ()⟩
+        have hl1 : ∀ f ∈ m.funcs, lvl m.funcs 1 f.id = true := by
+          intro f hf
+          rw [lvl]
+          split
+          · rfl
+          · rename_i f' hf'
+            rw [lvl_zero_eq]
+            exact hflat' f' (findFunc_some hf').1
+        have ht : TblOK hI (fenv hI m.funcs 1) m.funcs :=
+          ⟨fun op f hf => fenv_unfold hI m.funcs 1 hl1 (Nat.le_refl _) hf,
+            fun op f hf => by
+              exact (hfb f (findFunc_some hf).1).1,
+            fun op f hf => by
+              exact (hfb f (findFunc_some hf).1).2,
+            fun op f hf => ((validG_iff _).1 (hvfs f (findFunc_some hf).1)).2.1⟩
+        have hcg' := hcg
+        rw [hg] at hcg'
+        simp only [callsOKG] at hcg'
+        have hc := hvg.2.1
+        simp only [eraseG, closedG, Bool.and_eq_true] at hc
+        have hf := hvg.2.2.1
+        simp only [eraseG, noFwdG] at hf
+        have key := inlNodes_sound hI (fenv hI m.funcs 1) [] m.funcs crit (inlAt m.funcs crit m.funcs.length)
+          (freshF m) ht (deepId_inlAt m.funcs crit hflat' _) nodes [] outputs ⟨freshF m, [], 0, false⟩
+          Env.empty Env.empty (fun v _ => by rw [Subst.app_nil]) (fun p hp => by simp at hp) hvg.1.2 hc.2 hf
+          (fun v hv => hbound v (Or.inl (by simp only [eraseG, refsG, List.mem_append]; exact Or.inr hv)))
+          (fun v hv => hbound v (Or.inr (by simp only [eraseG, defsG, List.mem_append]; exact Or.inr hv)))
+          (Nat.le_refl _) (fun p hp => by simp at hp) hcg'
+        have hmapnil : outputs.map (Subst.app []) = outputs := by
+          conv => rhs; rw [← List.map_id outputs]
+          apply List.map_congr_left
+          intro v _; exact Subst.app_nil v
+        rw [hmapnil] at key
+        rw [key.2.1, List.length_map]
+    · cases hg : m.graph with
+      | mk inputs outputs inits nodes => simp [inlG, FGraph.inputs]
+    · cases hg : m.graph with
+      | mk inputs outputs inits nodes => simp [inlG, FGraph.inits]
+
+/-- non-vacuity of `C05_inline_partial`: a valid model with a call whose function has an attribute parameter
+    with a default, a reference attribute and an input the call does not supply; the pass replaces the call -/
+example : validF ⟨.mk [0] [2] [] [.mk ⟨"local", "F", ""⟩ [] [some 0] [2] []],
+    [⟨⟨"local", "F", ""⟩, [("alpha", some (.float 1056964608))], [10, 12], [11],
+      [.mk ⟨"", "Selu", ""⟩ [("alpha", .ref "alpha")] [some 10] [11] []], [""]⟩], ["", "local"]⟩ = true := by
+  decide
+
+example : flatFuncs ⟨.mk [0] [2] [] [.mk ⟨"local", "F", ""⟩ [] [some 0] [2] []],
+    [⟨⟨"local", "F", ""⟩, [("alpha", some (.float 1056964608))], [10, 12], [11],
+      [.mk ⟨"", "Selu", ""⟩ [("alpha", .ref "alpha")] [some 10] [11] []], [""]⟩], ["", "local"]⟩ = true := by
+  decide
+
+
+/-- a function reachable from the main graph or from a reachable function -/
+inductive Reach (m : FModel) : OpId → Prop where
+  | main {op : OpId} : op ∈ opsG m.graph → (findFunc m.funcs op).isSome = true → Reach m op
+  | step {g op : OpId} {f : Func} : Reach m g → findFunc m.funcs g = some f → op ∈ opsNodes f.nodes →
+      (findFunc m.funcs op).isSome = true → Reach m op
+
+/-- **C05_unused_functions** — RemoveUnusedFunctionsPass: at every unrolling depth the model denotes the same
+    outputs (for every operator interpretation and input), the main graph is unchanged, and every function
+    reachable from the main graph or from a reachable function is kept.  No validity assumption. -/
+theorem C05_unused_functions (m : FModel) :
+    (∀ (Val : Type) (I : Interp Val) (d : Nat) (xs : List Val), denoteAt d I (rufModel m) xs = denoteAt d I m xs) ∧
+    (rufModel m).graph = m.graph ∧
+    (∀ f ∈ m.funcs, Reach m f.id → f ∈ (rufModel m).funcs) := by
+  by_cases hc : closedUsed m.funcs (usedFuncs m) = true
+  · have hm : rufModel m = { m with funcs := m.funcs.filter (fun f => (usedFuncs m).contains f.id) } := by
+      unfold rufModel; rw [if_pos hc]
+    simp only [closedUsed, List.all_eq_true, Bool.or_eq_true, Bool.not_eq_true', callees, List.mem_filter,
+      and_imp] at hc
+    have hmain : ∀ op ∈ opsG m.graph, (findFunc m.funcs op).isSome = true → (usedFuncs m).contains op = true := by
+      intro op hop hs
+      simp only [usedFuncs, List.contains_eq_mem, decide_eq_true_eq]
+      exact reachIter_subset _ _ _ _ (by simp [callees, hop, hs])
+    have hcl : ∀ op f, findFunc m.funcs op = some f → (usedFuncs m).contains op = true →
+        opsAllNodes (fun o => (usedFuncs m).contains o || (findFunc m.funcs o).isNone) f.nodes = true := by
+      intro op f hf hk
+      obtain ⟨hmem, hid⟩ := findFunc_some hf
+      rw [opsAllNodes_iff]
+      intro o ho
+      rcases hc f hmem with h | h
+      · rw [hid, hk] at h; cases h
+      · cases hs : findFunc m.funcs o with
+        | none => simp
+        | some f' =>
+          have := h o ho (by simp [hs])
+          simp only [Bool.or_eq_true]; exact Or.inl this
+    rw [hm]
+    refine ⟨fun Val I d xs => ?_, rfl, fun f hf hr => ?_⟩
+    · simp only [denoteAt]
+      refine congrFun (evalGF_congrΦ I _ _ (fun o => (usedFuncs m).contains o || (findFunc m.funcs o).isNone)
+        (fun op hop => ?_) [] m.graph Env.empty ?_) xs
+      · refine fenv_filter_closed I m.funcs _ hcl d op ?_
+        simp only [Bool.or_eq_true, Option.isNone_iff_eq_none] at hop
+        exact hop
+      · rw [opsAllG_iff]
+        intro o ho
+        cases hs : findFunc m.funcs o with
+        | none => simp
+        | some f' =>
+          have := hmain o ho (by simp [hs])
+          simp only [Bool.or_eq_true]; exact Or.inl this
+    · simp only [List.mem_filter]
+      refine ⟨hf, ?_⟩
+      have : ∀ op, Reach m op → (usedFuncs m).contains op = true := by
+        intro op hr
+        induction hr with
+        | main ho hs => exact hmain _ ho hs
+        | step _ hg ho hs ih =>
+          obtain ⟨hmem, hid⟩ := findFunc_some hg
+          rcases hc _ hmem with h | h
+          · rw [hid, ih] at h; cases h
+          · exact h _ ho hs
+      exact this f.id hr
+  · have hm : rufModel m = m := by unfold rufModel; rw [if_neg hc]
+    rw [hm]
+    exact ⟨fun _ _ _ _ => rfl, rfl, fun f hf _ => hf⟩
+
+/-- **C05_unused_opsets** — RemoveUnusedOpsetsPass (either setting of `process_functions`): the denotation at
+    every unrolling depth, the main graph and the function bodies are unchanged (only opset imports are
+    touched), and the model keeps every imported domain that is the default domain, the domain of a function
+    or the domain of a node of the main graph (at any depth). -/
+theorem C05_unused_opsets (pf : Bool) (m : FModel) :
+    (∀ (Val : Type) (I : Interp Val) (d : Nat) (xs : List Val), denoteAt d I (ruoModel pf m) xs = denoteAt d I m xs) ∧
+    (ruoModel pf m).graph = m.graph ∧
+    (∀ dm ∈ m.domains, (dm = "" ∨ dm ∈ domsG m.graph ∨ ∃ f ∈ m.funcs, f.id.domain = dm) →
+      dm ∈ (ruoModel pf m).domains) := by
+  refine ⟨fun Val I d xs => ?_, rfl, fun dm hdm h => ?_⟩
+  · simp only [denoteAt, ruoModel]
+    cases pf with
+    | false => rfl
+    | true => simp only [if_true, fenv_map_domains]
+  · simp only [ruoModel, List.mem_filter, List.contains_eq_mem, decide_eq_true_eq, List.mem_cons, List.mem_append,
+      List.mem_map]
+    refine ⟨hdm, ?_⟩
+    rcases h with h | h | ⟨f, hf, h⟩
+    · exact Or.inl (Or.inl h)
+    · exact Or.inr h
+    · exact Or.inl (Or.inr ⟨f, hf, h⟩)
+
+/-- non-vacuity: the unused function G is removed, F (called) and H (called by F) are kept -/
+example : ((rufModel ⟨.mk [0] [1] [] [.mk ⟨"l", "F", ""⟩ [] [some 0] [1] []],
+    [⟨⟨"l", "F", ""⟩, [], [10], [11], [.mk ⟨"l", "H", ""⟩ [] [some 10] [11] []], []⟩,
+     ⟨⟨"l", "G", ""⟩, [], [20], [21], [.mk ⟨"", "Neg", ""⟩ [] [some 20] [21] []], []⟩,
+     ⟨⟨"l", "H", ""⟩, [], [30], [31], [.mk ⟨"", "Abs", ""⟩ [] [some 30] [31] []], []⟩], []⟩).funcs.map (·.id.name))
+    = ["F", "H"] := by decide
+
+end IrVerif.Inline
